@@ -1663,6 +1663,13 @@ pub fn run(args: &Args, out: &mut Out) {
             let stage = stage_cache.entry(ck).or_insert_with(|| if slow { diagnose2(&lines[i]).1 } else { diagnose(&lines[i]) }).clone();
             oracles[i] = format!("{} stage={}", r.oracle, stage);
             key = format!("{} stage={}", key, stage);
+            // a VALID call-graph program that crashes / hangs / overruns is never one of the listed findings (their inputs are
+            // pathological by size or nesting): keep it apart from the coarse (signal, stage) keys, replay = the spec itself
+            let is_cyc = reqs[i].input.starts_with("cyc:") || reqs[i].input.starts_with("cycone:");
+            if is_cyc && known.contains(&key) {
+                oracles[i] = format!("FAIL:valid call-graph program: {} stage={}", r.oracle.trim_start_matches("FAIL:"), stage);
+                continue;
+            }
         }
         if done.contains(&key) || (known.contains(&key) && std::env::var("VERIF_SHRINK_KNOWN").is_err()) {
             continue;
